@@ -773,16 +773,151 @@ def run_leg(
 
 
 # ------------------------------------------------------------------ driver
+
+# Hand-written models for expression shapes that the generators of this harness do not
+# emit: the grouping of the expression decides the verdict, so a transpiler that drops or
+# misplaces parentheses shows as disagreeing verdicts between the SDKs.
+TARGETED: List[Tuple[str, str]] = [
+    (
+        "targeted/comparison-of-comparison",
+        '''\
+from typing import List, Optional
+
+from icontract import invariant, DBC
+
+
+class Child(DBC):
+    weight: int
+
+    def __init__(self, weight: int) -> None:
+        self.weight = weight
+
+
+@invariant(
+    lambda self: (len(self.items) > 0) == self.has_items,
+    "The flag must reflect whether there are any items.",
+)
+@invariant(
+    lambda self: (self.low <= self.high) == self.ordered,
+    "The ordered flag must reflect the order of the bounds.",
+)
+@invariant(
+    lambda self: self.ordered != (self.low > self.high),
+    "Ordered is the opposite of reversed.",
+)
+@invariant(
+    lambda self: (self.low > 0) == (self.high > 0),
+    "Both bounds must have the same sign.",
+)
+@invariant(
+    lambda self: (self.low == 1) != (self.high == 1),
+    "Exactly one of the bounds must be one.",
+)
+@invariant(
+    lambda self: not (self.low < 3) == self.has_items,
+    "Negation binds weaker than the comparison.",
+)
+class Something(DBC):
+    items: List["Child"]
+    has_items: bool
+    low: int
+    high: int
+    ordered: bool
+
+    def __init__(
+        self,
+        items: List["Child"],
+        has_items: bool,
+        low: int,
+        high: int,
+        ordered: bool,
+    ) -> None:
+        self.items = items
+        self.has_items = has_items
+        self.low = low
+        self.high = high
+        self.ordered = ordered
+
+
+__version__ = "dummy"
+__xml_namespace__ = "https://dummy.com"
+''',
+    ),
+    (
+        "targeted/grouping-of-boolean-and-arithmetic",
+        '''\
+from typing import List, Optional
+
+from icontract import invariant, DBC
+
+
+@invariant(
+    lambda self: not (self.a and self.b) or self.c,
+    "Implication with a conjunction as antecedent.",
+)
+@invariant(
+    lambda self: (self.a or self.b) and self.c,
+    "Disjunction grouped under a conjunction.",
+)
+@invariant(
+    lambda self: self.a or (self.b and not (self.c or self.a)),
+    "Nested negation of a disjunction.",
+)
+@invariant(
+    lambda self: not (not self.a or not self.b) or (self.x - (self.y - self.z) > 0),
+    "Subtraction is not associative.",
+)
+@invariant(
+    lambda self: (self.x - self.y) - self.z <= 10,
+    "Left-grouped subtraction.",
+)
+@invariant(
+    lambda self: self.x - (self.y + self.z) >= -10,
+    "Subtraction of a sum.",
+)
+@invariant(
+    lambda self: 0 - (self.x - self.y) < 5,
+    "Negated difference.",
+)
+@invariant(
+    lambda self: (self.x + self.y) - (self.z - (self.x + 1)) != 6,
+    "Difference of grouped terms.",
+)
+class Something(DBC):
+    a: bool
+    b: bool
+    c: bool
+    x: int
+    y: int
+    z: int
+
+    def __init__(self, a: bool, b: bool, c: bool, x: int, y: int, z: int) -> None:
+        self.a = a
+        self.b = b
+        self.c = c
+        self.x = x
+        self.y = y
+        self.z = z
+
+
+__version__ = "dummy"
+__xml_namespace__ = "https://dummy.com"
+''',
+    ),
+]
+
 def worker(args) -> Dict[str, Any]:
     argv, spec, n_instances, n_mutants, timeouts = args
     chk = harness.Check("C09", "exploration", RULE, argv)
     tools = xsdk.Toolchains()
     try:
-        if spec[0] == "corpus":
+        if spec[0] in ("corpus", "targeted"):
             _, name, text = spec
-            check_model(
+            accepted = check_model(
                 chk, tools, name, text, chk.rng("inst", name), n_instances, n_mutants, LEGS, timeouts
             )
+            if spec[0] == "targeted":
+                chk.count("targeted_models_accepted" if accepted else "targeted_models_refused")
         else:
             _, i = spec
             java_hostile = i % 2 == 1
@@ -821,7 +956,7 @@ def main(argv) -> int:
     # generated and corpus models interleaved, so that a run cut short has seen both
     generated: List[Tuple] = [("mmg", i) for i in range(n_models)]
     fixtures: List[Tuple] = [("corpus", name, text) for name, text in corpus.small_common()]
-    specs: List[Tuple] = []
+    specs: List[Tuple] = [("targeted", name, text) for name, text in TARGETED]
     while generated or fixtures:
         if generated:
             specs.append(generated.pop(0))
